@@ -19,9 +19,12 @@ def main():
     src = sys.argv[1]
     items = [a for a in sys.argv[2:] if not a.startswith("--")]
     also = []
+    tag = ""
     for a in sys.argv[2:]:
         if a.startswith("--also="):
             also = a.split("=", 1)[1].split(",")
+        if a.startswith("--tag="):
+            tag = a.split("=", 1)[1] + "-"
     for it in items:
         pid, k = it.split("/")
         d = os.path.join(src, pid, k)
@@ -41,7 +44,7 @@ def main():
         finally:
             sh("git -C /repo checkout -- .")
         detected = "quick" if res[pid]["exit"] != 0 else ("thorough" if res.get(pid + ":thorough", {}).get("exit", 0) != 0 else "missed")
-        out = os.path.join(ROOT, "seeded", f"{pid}-{k}")
+        out = os.path.join(ROOT, "seeded", f"{pid}-{tag}{k}")
         os.makedirs(out, exist_ok=True)
         for f in ("patch.diff", "demonstration.md", "demo.rs"):
             if os.path.exists(os.path.join(d, f)):
